@@ -24,7 +24,7 @@ Record pst := {
   ps : nat -> option (nat * list (nat * nat))   (* synchronize_rcu in progress by a thread: begin time, sections open then *)
 }.
 
-Definition NR : nat := 8.          (* thread ids are below NR *)
+Definition NR : nat := 64.         (* thread ids are below NR (resize helper threads get fresh ids) *)
 
 Inductive pact :=
 | PAlloc (id ord : nat) | PLink (id : nat) | PSize (k : nat) | PSyncBegin (t : nat) | PSyncEnd (t : nat)
